@@ -17,6 +17,7 @@ import (
 
 	"github.com/syndtr/goleveldb/leveldb"
 	"github.com/syndtr/goleveldb/leveldb/opt"
+	"github.com/syndtr/goleveldb/leveldb/storage"
 	"github.com/syndtr/goleveldb/leveldb/util"
 
 	"verif/hang"
@@ -296,7 +297,7 @@ func runCase(c *wk.Ctx, i int) {
 	per := c.Pick(60, 150)
 	gmp := []int{2, 4, 16}[r.Intn(3)]
 	competitor := r.Intn(4) // 0 none, 1 transactions, 2 CompactRange, 3 both
-	ending := r.Intn(6)     // 0..3 normal, 4 Close mid-way, 5 SetReadOnly mid-way
+	ending := r.Intn(7)     // 0..3 normal, 4 Close mid-way, 5 SetReadOnly mid-way, 6 journal faults mid-way
 	c.Begin(i, fmt.Sprintf("writers=%d per=%d gomaxprocs=%d competitor=%d ending=%d opts=%v", nw, per, gmp, competitor, ending, os.Desc))
 	old := runtime.GOMAXPROCS(gmp)
 	defer runtime.GOMAXPROCS(old)
@@ -405,7 +406,7 @@ func runCase(c *wk.Ctx, i int) {
 							}
 						}
 					}
-				} else if err != leveldb.ErrClosed && err != leveldb.ErrReadOnly {
+				} else if err != leveldb.ErrClosed && err != leveldb.ErrReadOnly && !(ending == 6 && strings.Contains(err.Error(), "injected")) {
 					fail("unexpected-error", "write failed: "+err.Error(), nil)
 					return
 				}
@@ -462,6 +463,14 @@ func runCase(c *wk.Ctx, i int) {
 		}
 		db.SetReadOnly()
 		c.Count("persistent_error_mid_protocol", 1)
+	case 6:
+		// the group's journal write fails a few times: every writer of such a group gets that error
+		for atomic.LoadInt64(&returns) < int64(nw*per/4) && atomic.LoadInt32(&bad) == 0 {
+			time.Sleep(100 * time.Microsecond)
+		}
+		kinds := []vstor.OpKind{vstor.OpWrite, vstor.OpSync}
+		st.AddFault(vstor.Fault{Kind: kinds[r.Intn(2)], Type: storage.TypeJournal, Nth: 1, Count: 2 + r.Intn(6)})
+		c.Count("journal_fault_episodes", 1)
 	}
 	// every writer must come home; a generous wait turns into inspections (two goroutine dumps): only a
 	// writer parked in the write path with no progress anywhere is a verdict
@@ -513,7 +522,7 @@ func runCase(c *wk.Ctx, i int) {
 		}
 	}
 	// sequence advanced by exactly the acknowledged records (when nothing else wrote)
-	if atomic.LoadInt32(&bad) == 0 && !closedMid && competitor&1 == 0 {
+	if atomic.LoadInt32(&bad) == 0 && !closedMid && competitor&1 == 0 && ending != 6 {
 		vv1, rel1, err := leveldb.VerifPinVersion(db)
 		if err == nil {
 			rel1()
@@ -523,6 +532,7 @@ func runCase(c *wk.Ctx, i int) {
 			c.Count("sequence_accounting_checked", 1)
 		}
 	}
+	st.ClearFaults()
 	if !closedMid {
 		db.Close()
 	}
